@@ -169,6 +169,22 @@ func intrinsic(ex *Exec, st *State, site ssa.Instruction, fn *ssa.Function, args
 		}
 		ex.Decoded = iv.V
 		return ex.strToBytes(st, ConcreteStr("<toml>"))
+	case "RunConcurrent":
+		k := int(concreteIntArg(args[0], name))
+		ex.inE2 = true
+		ex.RunConcurrent(st, site, k, args[1])
+		ex.inE2 = false
+		return nil
+	case "AnyEnabled":
+		return ex.goroutineQuery(st, "AnyEnabled", "")
+	case "Live":
+		return ex.goroutineQuery(st, "Live", concreteStrArg(args[0], name))
+	case "BlockedIn":
+		return ex.goroutineQuery(st, "BlockedIn", concreteStrArg(args[0], name))
+	case "Attempts":
+		return bv64(1)
+	case "Jitter":
+		return nil
 	case "Enable":
 		if ex.Flags == nil {
 			ex.Flags = map[string]bool{}
@@ -205,13 +221,63 @@ func registerStubs(ex *Exec) {
 	}
 	S["github.com/gethiox/HIDI/internal/pkg/logger.GetLogger"] = stubZero
 	S["(*github.com/gethiox/HIDI/internal/pkg/midi/device.Device).logFields"] = stubZero
+	// contexts carry a real channel that cancel() closes
+	newCtx := func(ex *Exec, st *State) (*Opaque, *ChanV) {
+		op := ex.newOpaque("ctx")
+		ch := &ChanV{Obj: ex.newObj(st, ex.newChanC(0, types.NewStruct(nil, nil)))}
+		op.Data["done"] = ch
+		return op, ch
+	}
 	S["context.Background"] = func(ex *Exec, st *State, site ssa.Instruction, fn *ssa.Function, args []Value) Value {
-		return &IfaceV{T: nil, V: ex.newOpaque("ctx")}
+		op, _ := newCtx(ex, st)
+		return &IfaceV{T: nil, V: op}
 	}
 	S["context.WithCancel"] = func(ex *Exec, st *State, site ssa.Instruction, fn *ssa.Function, args []Value) Value {
-		return &TupleV{E: []Value{&IfaceV{T: nil, V: ex.newOpaque("ctx")}, ex.newOpaque("cancel")}}
+		op, ch := newCtx(ex, st)
+		cancel := ex.newOpaque("cancel")
+		cancel.Data["done"] = ch
+		// cancelling the parent cancels the child: remember the parent
+		if iv, ok := args[0].(*IfaceV); ok {
+			if pop, ok := iv.V.(*Opaque); ok {
+				op.Data["parent"] = pop
+			}
+		}
+		return &TupleV{E: []Value{&IfaceV{T: nil, V: op}, cancel}}
 	}
-	S["cancel.call"] = stubNop
+	S["cancel.call"] = func(ex *Exec, st *State, site ssa.Instruction, fn *ssa.Function, args []Value) Value {
+		ch := args[0].(*Opaque).Data["done"].(*ChanV)
+		cc := ex.get(st, ch.Obj).(*ChanC)
+		n := *cc
+		n.Closed = smt.True
+		st.heap[ch.Obj] = &n
+		return nil
+	}
+	S["ctx.Done"] = func(ex *Exec, st *State, site ssa.Instruction, fn *ssa.Function, args []Value) Value {
+		op := args[0].(*Opaque)
+		if p, ok := op.Data["parent"].(*Opaque); ok {
+			// a derived context is done when its own or its parent's channel is closed: propagate lazily
+			pch := p.Data["done"].(*ChanV)
+			own := op.Data["done"].(*ChanV)
+			pc := ex.get(st, pch.Obj).(*ChanC)
+			oc := ex.get(st, own.Obj).(*ChanC)
+			n := *oc
+			n.Closed = smt.Or(oc.Closed, pc.Closed)
+			st.heap[own.Obj] = &n
+		}
+		return op.Data["done"]
+	}
+	S["time.After"] = func(ex *Exec, st *State, site ssa.Instruction, fn *ssa.Function, args []Value) Value {
+		// a timer that has fired: the scheduler decides when the receive happens
+		et := fn.Signature.Results().At(0).Type().Underlying().(*types.Chan).Elem()
+		cc := ex.newChanC(1, et)
+		if cc.Ring {
+			cc.Len = bv64(1)
+		} else {
+			cc.Entries = []ChanEntry{{G: smt.True, V: ex.zero(et)}}
+		}
+		id := ex.newObj(st, cc)
+		return &ChanV{Obj: id}
+	}
 	S["fmt.Sprintf"] = stubSprintf
 	S["fmt.Errorf"] = func(ex *Exec, st *State, site ssa.Instruction, fn *ssa.Function, args []Value) Value {
 		op := ex.newOpaque("error")
